@@ -21,16 +21,17 @@ def main():
     prop = a.prop.upper()
     mod = importlib.import_module(f"harness.{prop.lower()}")
     ctx = common.Ctx(prop, a.tier, a.seed)
+    ctx.groups = list(getattr(mod, 'GROUPS', ()))
     if a.replay:
         case = json.load(open(a.replay))
         if not a.no_build:
-            ctx.build()
+            ctx.build(getattr(mod, 'GROUPS', ()))
         common.init_jax()
         ok = mod.replay(ctx, case)
         print("REPLAY", "property holds on this case" if ok else "property FAILS on this case")
         sys.exit(0 if ok else 1)
     try:
-        built = True if a.no_build else ctx.build()
+        built = True if a.no_build else ctx.build(getattr(mod, 'GROUPS', ()))
         ctx.scan_forbidden()
         if built:
             ctx.theorems()
